@@ -51,11 +51,13 @@ structure State where
   conns : List Int
   fails : List Int
   timers : List Nat
+  /-- `UpstreamHost.Unhealthy`, written by the health-check worker (`Cfg.unhealthy` is its initial value) -/
+  unhealthy : List Bool
 deriving Repr, DecidableEq
 
 def State.init (c : Cfg) (nThreads : Nat) : State :=
   { pcs := List.replicate nThreads .idle, conns := List.replicate c.nHosts 0,
-    fails := List.replicate c.nHosts 0, timers := List.replicate c.nHosts 0 }
+    fails := List.replicate c.nHosts 0, timers := List.replicate c.nHosts 0, unhealthy := c.unhealthy }
 
 def getI (l : List Int) (h : Nat) : Int := l.getD h 0
 def getN (l : List Nat) (h : Nat) : Nat := l.getD h 0
@@ -68,7 +70,7 @@ def dropN (l : List Nat) (h : Nat) : List Nat := l.modify h (· - 1)
 def full (c : Cfg) (s : State) (h : Nat) : Bool := decide (c.maxConns > 0) && decide (getI s.conns h ≥ c.maxConns)
 
 /-- `UpstreamHost.Down` (the CheckDown closure of staticUpstream.NewHost) -/
-def down (c : Cfg) (s : State) (h : Nat) : Bool := c.unhealthy.getD h false || decide (getI s.fails h ≥ c.maxFails)
+def down (c : Cfg) (s : State) (h : Nat) : Bool := s.unhealthy.getD h false || decide (getI s.fails h ≥ c.maxFails)
 
 /-- `UpstreamHost.Available` -/
 def avail (c : Cfg) (s : State) (h : Nat) : Bool := decide (h < c.nHosts) && !down c s h && !full c s h
@@ -85,6 +87,9 @@ inductive Event where
   | countFail (t : Nat) (again : Bool)
   /-- one pending timer of backend `h` fires (`Fails--`) -/
   | timer (h : Nat)
+  /-- one pass of the health-check worker (`staticUpstream.healthCheck`): every backend's `Unhealthy`
+  flag is set to the outcome of its probe; nothing else is touched -/
+  | health (flags : List Bool)
 deriving Repr, DecidableEq
 
 def setPC (s : State) (t : Nat) (pc : PC) : State := { s with pcs := s.pcs.set t pc }
@@ -121,6 +126,7 @@ def step (c : Cfg) (s : State) : Event → Option State
   | .timer h =>
     if getN s.timers h > 0 then some { s with fails := bump s.fails h (-1), timers := dropN s.timers h }
     else none
+  | .health flags => some { s with unhealthy := flags }
 
 def run (c : Cfg) : State → List Event → Option State
   | s, [] => some s
@@ -149,6 +155,8 @@ inductive Label where
   | noop
   /-- the oldest outstanding failure of backend `h` has expired -/
   | exp (h : Nat)
+  /-- a health-check pass found these backends failing (true) / passing (false) -/
+  | hc (flags : List Bool)
   | final
 deriving Repr, DecidableEq
 
@@ -157,6 +165,7 @@ structure Snap where
   conns : List Int
   fails : List Int
   inflight : List Nat
+  unhealthy : List Bool
 deriving Repr, DecidableEq
 
 /-- how failures expire in the replay: not counted, never within the run, right away, or when
@@ -204,13 +213,17 @@ def advance (c : Cfg) (ex : Expiry) (s : State) (t x : Nat) : State × Label :=
   | _ => (s, .noop)
 
 def snap (c : Cfg) (s : State) (l : Label) : Snap :=
-  { label := l, conns := s.conns, fails := s.fails, inflight := (List.range c.nHosts).map (forwardingTo s) }
+  { label := l, conns := s.conns, fails := s.fails, inflight := (List.range c.nHosts).map (forwardingTo s),
+    unhealthy := s.unhealthy }
 
 /-- the thread number that stands for "wait until the oldest outstanding failure has expired" -/
 def waitMark : Nat := 1000
 
 /-- thread numbers from here on stand for "the client of request t - cancelMark goes away" -/
 def cancelMark : Nat := 2000
+
+/-- the thread number that stands for "the health-check worker runs one pass" -/
+def healthMark : Nat := 3000
 
 /-- A request whose client has gone away (its context is cancelled) while it was between attempts
 or had not started yet: once it has been counted in on a backend, the transport returns
@@ -231,6 +244,11 @@ def replay (c : Cfg) (ex : Expiry) : State → List Nat → List Nat → List (N
         let s' := stepD c s (.timer h)
         snap c s' (.exp h) :: replay c ex s' q' cs es
       | [] => snap c s .noop :: replay c ex s [] cs es
+    else if t ≥ healthMark then
+      -- one pass of the health check: bit h of `x` set = backend h fails its probe
+      let flags := (List.range c.nHosts).map (fun h => x / 2 ^ h % 2 == 1)
+      let s' := stepD c s (.health flags)
+      snap c s' (.hc flags) :: replay c ex s' q cs es
     else if t ≥ cancelMark then
       snap c s .noop :: replay c ex s q ((t - cancelMark) :: cs) es
     else
